@@ -332,3 +332,132 @@ Theorem C16_voronoi_uses_cell_centre : forall nrows ncols xll yll csz row col,
   (xll + csz * (IZR col + / 2), yll + csz * (IZR (nrows - 1 - row) + / 2)).
 Proof. exact getcoord_centre. Qed.
 Print Assumptions C16_voronoi_uses_cell_centre.
+
+(* ================================================================== *)
+(* Intersection and Voronoi weights on the REGENERATED program (MiniC *)
+(* translation of c_intersect / c_voronoi, c_grid.c, Gen/KernelsAst.v). *)
+(* ================================================================== *)
+From Coq Require Import String Lia PrimFloat.
+From Hy Require Import Base.Num Base.MiniC Gen.KernelsAst Gen.Consts Gen.ConstsC16 Model.Grid Model.Intersect.
+From Hy Require Proofs.RefineIntersect.
+Import ListNotations.
+Open Scope string_scope.
+Open Scope list_scope.
+Open Scope Z_scope.
+
+(* c_intersect over the reals = the model [c_intersect]: any grid of at most 2^63-1 rows / columns, any cell sizes (0 included), any points, buffers of max(0, nrows*ncols) entries as grid.py allocates (pigeonhole: the unguarded store never leaves them); the count, the cells and the weights are written in front of the untouched rest *)
+Theorem C16_kernel_intersect_refines_model :
+  forall (nrows ncols : Z) (xll yll csz csz_area : R) (xys : list (R * R)) 
+         (np0 : Z) (idx0 : list Z) (w0 : list R) (n : nat),
+       nrows <= RefineIntersect.MAXLL ->
+       ncols <= RefineIntersect.MAXLL ->
+       Datatypes.length w0 = Datatypes.length idx0 ->
+       Z.max 0 (nrows * ncols) <= Z.of_nat (Datatypes.length idx0) ->
+       (Datatypes.length xys + 2 < n)%nat ->
+       exec_fun RR XRR program (S n) "c_intersect"
+         [AVI nrows; AVI ncols; AVF xll; AVF yll; AVF csz; AVF csz_area; 
+          AVI (zlen xys); AVArrF (RefineIntersect.flat2 xys); AVI (zlen idx0); 
+          AVArrI [np0]; AVArrI idx0; AVArrF w0] =
+       Ok
+         (RI 0,
+          let acc := c_intersect RR nrows ncols xll yll csz csz_area xys in
+          [VArrF (RefineIntersect.flat2 xys); VArrI [zlen acc];
+           VArrI (map fst acc ++ skipn (Datatypes.length acc) idx0);
+           VArrF (map snd acc ++ skipn (Datatypes.length acc) w0)]).
+Proof. exact @RefineIntersect.refine_intersect_RR. Qed.
+Print Assumptions C16_kernel_intersect_refines_model.
+
+(* the same over the reals with NaN (NaN coordinates or cell sizes) *)
+Theorem C16_kernel_intersect_refines_model_with_nan :
+  forall (nrows ncols : Z) (xll yll csz csz_area : option R)
+         (xys : list (option R * option R)) (np0 : Z) (idx0 : list Z) (w0 : list (option R))
+         (n : nat),
+       nrows <= RefineIntersect.MAXLL ->
+       ncols <= RefineIntersect.MAXLL ->
+       Datatypes.length w0 = Datatypes.length idx0 ->
+       Z.max 0 (nrows * ncols) <= Z.of_nat (Datatypes.length idx0) ->
+       (Datatypes.length xys + 2 < n)%nat ->
+       exec_fun RN XRN program (S n) "c_intersect"
+         [AVI nrows; AVI ncols; AVF xll; AVF yll; AVF csz; AVF csz_area; 
+          AVI (zlen xys); AVArrF (RefineIntersect.flat2 xys); AVI (zlen idx0); 
+          AVArrI [np0]; AVArrI idx0; AVArrF w0] =
+       Ok
+         (RI 0,
+          let acc := c_intersect RN nrows ncols xll yll csz csz_area xys in
+          [VArrF (RefineIntersect.flat2 xys); VArrI [zlen acc];
+           VArrI (map fst acc ++ skipn (Datatypes.length acc) idx0);
+           VArrF (map snd acc ++ skipn (Datatypes.length acc) w0)]).
+Proof. exact @RefineIntersect.refine_intersect_RN. Qed.
+Print Assumptions C16_kernel_intersect_refines_model_with_nan.
+
+(* c_voronoi over the reals: a positive code and untouched weights without points / on an empty grid; the model's weights when every catchment cell is valid; a positive code at the first invalid cell, the weights then holding the (not yet normalised) counts of the cells before it *)
+Theorem C16_kernel_voronoi_refines_model :
+  forall (nrows ncols : Z) (xll yll csz : R) (cells : list Z) (pts : list (R * R))
+         (w0 : list R) (n : nat),
+       Datatypes.length w0 = Datatypes.length pts ->
+       (Nat.max (Datatypes.length cells) (Datatypes.length pts) + 1 < n)%nat ->
+       let run :=
+         exec_fun RR XRR program (S n) "c_voronoi"
+           [AVI nrows; AVI ncols; AVF xll; AVF yll; AVF csz; AVI (zlen cells); 
+            AVArrI cells; AVI (zlen pts); AVArrF (RefineIntersect.flat2 pts); 
+            AVArrF w0] in
+       if (zlen pts <? 1) || ((nrows <? 1) || (ncols <? 1))
+       then
+        exists code : Z,
+          0 < code /\
+          run = Ok (RI code, [VArrI cells; VArrF (RefineIntersect.flat2 pts); VArrF w0])
+       else
+        if forallb (valid_cell nrows ncols) cells
+        then
+         run =
+         Ok
+           (RI 0,
+            [VArrI cells; VArrF (RefineIntersect.flat2 pts);
+             VArrF (voronoi RR VORONOI_DISTMAX_R nrows ncols xll yll csz cells pts)])
+        else
+         exists (code : Z) (pre : list Z) (bad : Z) (post : list Z),
+           0 < code /\
+           cells = pre ++ bad :: post /\
+           forallb (valid_cell nrows ncols) pre = true /\
+           valid_cell nrows ncols bad = false /\
+           run =
+           Ok
+             (RI code,
+              [VArrI cells; VArrF (RefineIntersect.flat2 pts);
+               VArrF (voronoi_counts RR VORONOI_DISTMAX_R nrows ncols xll yll csz pre pts)]).
+Proof. exact @RefineIntersect.refine_voronoi_RR. Qed.
+Print Assumptions C16_kernel_voronoi_refines_model.
+
+(* generic over the arithmetic under the floor / conversion laws (FloorLaws) with the weakest buffer hypothesis: the model's list fits the buffers *)
+Theorem C16_kernel_intersect_generic :
+  forall (T : Type) (N : NumOps T) (X : NumLit T) (B : Z) (flo : T -> T) 
+         (nrows ncols : Z) (xll yll csz csz_area : T) (xys : list (T * T)) 
+         (np0 : Z) (idx0 : list Z) (w0 : list T) (n : nat),
+       RefineIntersect.FloorLaws N X B flo ->
+       nrows <= B ->
+       ncols <= B ->
+       Datatypes.length w0 = Datatypes.length idx0 ->
+       (Datatypes.length (c_intersect N nrows ncols xll yll csz csz_area xys) <=
+        Datatypes.length idx0)%nat ->
+       (Datatypes.length xys + 2 < n)%nat ->
+       exec_fun N X program (S n) "c_intersect"
+         [AVI nrows; AVI ncols; AVF xll; AVF yll; AVF csz; AVF csz_area; 
+          AVI (zlen xys); AVArrF (RefineIntersect.flat2 xys); AVI (zlen idx0); 
+          AVArrI [np0]; AVArrI idx0; AVArrF w0] =
+       Ok
+         (RI 0,
+          let acc := c_intersect N nrows ncols xll yll csz csz_area xys in
+          [VArrF (RefineIntersect.flat2 xys); VArrI [zlen acc];
+           VArrI (map fst acc ++ skipn (Datatypes.length acc) idx0);
+           VArrF (map snd acc ++ skipn (Datatypes.length acc) w0)]).
+Proof. exact @RefineIntersect.refine_intersect. Qed.
+Print Assumptions C16_kernel_intersect_generic.
+
+(* with shorter buffers the kernel writes outside them (the Cython wrapper accepts any length; grid.py always allocates nrows*ncols): binary64 witness *)
+Theorem C16_kernel_intersect_short_buffer_unsafe :
+  exec_fun F64 XF64 program 10 "c_intersect"
+         [AVI 1; AVI 1; AVF 0%float; AVF 0%float; AVF 1%float; AVF 1%float; 
+          AVI 1; AVArrF [0.5%float; 0.5%float]; AVI 0; AVArrI [0]; AVArrI []; 
+          AVArrF []] = Err (OOB "idxcells" 0).
+Proof. exact @RefineIntersect.intersect_short_buffer_oob. Qed.
+Print Assumptions C16_kernel_intersect_short_buffer_unsafe.
